@@ -115,7 +115,7 @@ class ImmutableDict(Mapping[Any, Any]):
     def _validate(self, arg: dict[Any, Any] | Iterable[tuple[Any, Any]]) -> None:
         """Validate arguments."""
 
-        if isinstance(arg, dict):
+        if isinstance(arg, Mapping):
             if not all(isinstance(v, Hashable) for v in arg.values()):
                 raise TypeError(f'{self.__class__.__name__} values must be hashable')
         elif not all(isinstance(k, Hashable) and isinstance(v, Hashable) for k, v in arg):
@@ -160,7 +160,7 @@ class Namespaces(ImmutableDict):
     def _validate(self, arg: dict[str, str] | Iterable[tuple[str, str]]) -> None:
         """Validate arguments."""
 
-        if isinstance(arg, dict):
+        if isinstance(arg, Mapping):
             if not all(isinstance(v, str) for v in arg.values()):
                 raise TypeError(f'{self.__class__.__name__} values must be hashable')
         elif not all(isinstance(k, str) and isinstance(v, str) for k, v in arg):
@@ -178,7 +178,7 @@ class CustomSelectors(ImmutableDict):
     def _validate(self, arg: dict[str, str] | Iterable[tuple[str, str]]) -> None:
         """Validate arguments."""
 
-        if isinstance(arg, dict):
+        if isinstance(arg, Mapping):
             if not all(isinstance(v, str) for v in arg.values()):
                 raise TypeError(f'{self.__class__.__name__} values must be hashable')
         elif not all(isinstance(k, str) and isinstance(v, str) for k, v in arg):
